@@ -54,6 +54,9 @@ type jobSpec struct {
 	Dur    int  `json:"dur"`
 	N      int  `json:"n"`
 	Panics bool `json:"panics"`
+	// PanicKind: what a panicking job panics with: 0 its id (an int), 1 a Go runtime error (write to a nil map),
+	// 2 an error value, 3 a string, 4 a runtime error (index out of range)
+	PanicKind int `json:"panicKind"`
 }
 
 const (
@@ -159,6 +162,7 @@ func genScenario(t *rapid.T) scenario {
 		case durSleep:
 			j.N = rapid.IntRange(20, 2000).Draw(t, "us")
 		}
+		j.PanicKind = rapid.SampledFrom([]int{0, 0, 0, 1, 2, 3, 4}).Draw(t, "panicKind")
 		switch faults {
 		case "first":
 			j.Panics = i == 0
@@ -268,16 +272,35 @@ func runScenario(s scenario) result {
 	handlerCalls := map[int]int{}
 	handlerBad := ""
 	handlerGen := map[int]int{} // generation of the handler that was told about job id
+	var curJob sync.Map         // goroutine id -> id of the job that goroutine runs (the handler runs on the worker that ran the job)
 	mkHandler := func(g int) func(interface{}) {
 		return func(p interface{}) {
 			handlerMu.Lock()
-			if id, ok := p.(int); ok {
-				handlerCalls[id]++
-				handlerGen[id] = g
-			} else {
-				handlerBad = fmt.Sprintf("panic handler invoked with %v (%T), not a job's own panic value", p, p)
+			defer handlerMu.Unlock()
+			id, isID := p.(int)
+			if !isID {
+				cur, ok := curJob.Load(vlib.GoID())
+				if !ok {
+					handlerBad = fmt.Sprintf("panic handler invoked with %v (%T) on a goroutine that ran no job", p, p)
+					return
+				}
+				id = cur.(int)
+				want := ""
+				switch s.Jobs[id].PanicKind {
+				case 1:
+					want = "assignment to entry in nil map"
+				case 2, 3:
+					want = fmt.Sprintf("job %d failed", id)
+				case 4:
+					want = "index out of range"
+				}
+				if !s.Jobs[id].Panics || s.Jobs[id].PanicKind == 0 || !strings.Contains(fmt.Sprint(p), want) {
+					handlerBad = fmt.Sprintf("panic handler invoked with %v (%T) after job %d, which does not panic with that", p, p, id)
+					return
+				}
 			}
-			handlerMu.Unlock()
+			handlerCalls[id]++
+			handlerGen[id] = g
 		}
 	}
 	var pool *worker.DefaultWorkerPool
@@ -360,6 +383,7 @@ func runScenario(s scenario) result {
 	mkJob := func(id int) func() {
 		spec := s.Jobs[id]
 		return func() {
+			curJob.Store(vlib.GoID(), id)
 			atomic.AddInt64(&started, 1)
 			n := atomic.AddInt32(&inflight, 1)
 			for {
@@ -381,6 +405,18 @@ func runScenario(s scenario) result {
 				<-gates[phaseOf[id]]
 			}
 			if spec.Panics {
+				switch spec.PanicKind {
+				case 1:
+					var m map[int]int
+					m[id] = 1
+				case 2:
+					panic(fmt.Errorf("job %d failed", id))
+				case 3:
+					panic(fmt.Sprintf("job %d failed", id))
+				case 4:
+					var a []int
+					_ = a[id+1]
+				}
 				panic(id)
 			}
 		}
